@@ -289,13 +289,15 @@ func registry() map[string]PropSpec {
 	add(PropSpec{
 		ID: "C03",
 		Harnesses: []HSpec{
-			{Pkg: ".", Name: "c03_command", Quick: map[string]int{"cmdmodes": 6, "extras": 1}, Thorough: map[string]int{"cmdmodes": 6, "extras": 2}, Unwind: [2]int{64, 64}, Budget: [2]int{120, 1500}, Models: []string{"net/url.Parse=vpModelURLParse", "path.Join=vpModelPathJoin"},
+			{Pkg: ".", Name: "c03_command", Quick: map[string]int{"cmdmodes": 6, "extras": 1, "yaml": 0}, Thorough: map[string]int{"cmdmodes": 6, "extras": 2, "yaml": 0}, Unwind: [2]int{64, 64}, Budget: [2]int{120, 1500}, Models: []string{"net/url.Parse=vpModelURLParse", "path.Join=vpModelPathJoin"},
 				What: "command step: every combination of key/id/identifier, label/name, command/commands (string or list, or both keys), up to two unknown extra keys with nested values of every scalar kind; bare list or mapping document: JSON data model of the marshalled pipeline is the documented normal form with every other key exactly once and unchanged"},
-			{Pkg: ".", Name: "c03_plugins", Quick: map[string]int{}, Unwind: [2]int{64, 64}, Models: []string{"net/url.Parse=vpModelURLParse", "path.Join=vpModelPathJoin"},
+			{Pkg: ".", Name: "c03_command", Quick: map[string]int{"cmdmodes": 5, "extras": 0, "yaml": 1}, Thorough: map[string]int{"cmdmodes": 5, "extras": 1, "yaml": 1}, Unwind: [2]int{64, 64}, Budget: [2]int{120, 1500}, FixedMapOrder: true, Models: []string{"net/url.Parse=vpModelURLParse", "path.Join=vpModelPathJoin"},
+				What: "same documents, additionally through the YAML leg on the node data model: yaml.Marshal of the parsed pipeline, parsed again, carries the same data as the JSON output"},
+			{Pkg: ".", Name: "c03_plugins", Quick: map[string]int{"yaml": 1}, Unwind: [2]int{64, 64}, FixedMapOrder: true, Models: []string{"net/url.Parse=vpModelURLParse", "path.Join=vpModelPathJoin"},
 				What: "plugins as list of strings / one-key maps / one mapping, config absent / {} / nested / any key order: ordered list of single-entry objects keyed by canonical source, empty configs null, configs unchanged at every depth"},
-			{Pkg: ".", Name: "c03_matrix", Quick: map[string]int{}, Unwind: [2]int{64, 64}, Models: []string{"net/url.Parse=vpModelURLParse", "path.Join=vpModelPathJoin"},
+			{Pkg: ".", Name: "c03_matrix", Quick: map[string]int{"yaml": 1}, Unwind: [2]int{64, 64}, FixedMapOrder: true, Models: []string{"net/url.Parse=vpModelURLParse", "path.Join=vpModelPathJoin"},
 				What: "matrix shorthands (list, setup list, named dimensions, adjustments with scalar or map `with`, extras): canonical shape, scalars become strings, nothing lost"},
-			{Pkg: ".", Name: "c03_cache_env", Quick: map[string]int{}, Unwind: [2]int{64, 64}, Models: []string{"net/url.Parse=vpModelURLParse", "path.Join=vpModelPathJoin"},
+			{Pkg: ".", Name: "c03_cache_env", Quick: map[string]int{"yaml": 1}, Unwind: [2]int{64, 64}, FixedMapOrder: true, Models: []string{"net/url.Parse=vpModelURLParse", "path.Join=vpModelPathJoin"},
 				What: "cache shorthands (false, string, list, map with extras) and env scalars"},
 			{Pkg: ".", Name: "c03_kinds", Quick: map[string]int{}, Unwind: [2]int{64, 64}, Models: []string{"net/url.Parse=vpModelURLParse", "path.Join=vpModelPathJoin"},
 				What: "scalar and mapping wait/input/trigger/unknown steps, groups with aliases and children, and the pipeline level (env order and scalars, top-level extras, bare list)"},
@@ -365,6 +367,10 @@ func registry() map[string]PropSpec {
 				What: "every Cache.MarshalJSON shape (false, paths, full map with extras, {}, name only) round-trips"},
 			{Pkg: ".", Name: "c09_pipeline", Quick: map[string]int{}, Unwind: [2]int{64, 64}, FixedMapOrder: true, Models: []string{"net/url.Parse=vpModelURLParse", "path.Join=vpModelPathJoin"},
 				What: "a small pipeline (command with plugin, group with children, wait/input/trigger/unknown step, env block, extras) through the whole-document path: same step kinds, group contents, env order; idempotent"},
+			{Pkg: ".", Name: "c09_yaml_step", Quick: map[string]int{}, Unwind: [2]int{64, 64}, FixedMapOrder: true, Budget: [2]int{120, 900}, Models: []string{"net/url.Parse=vpModelURLParse", "path.Join=vpModelPathJoin"},
+				What: "YAML leg on the node data model: yaml.Marshal of a pipeline holding one command step from the option lattice (env, plugins, every matrix and cache shape, signature, extras) -> node tree -> parse again: no warning, still a command step, and the same JSON data model as before (both formats carry the same data)"},
+			{Pkg: ".", Name: "c09_yaml_pipeline", Quick: map[string]int{}, Unwind: [2]int{64, 64}, FixedMapOrder: true, Models: []string{"net/url.Parse=vpModelURLParse", "path.Join=vpModelPathJoin"},
+				What: "YAML leg on the node data model for a small pipeline: scalar and mapping wait/input/trigger/unknown steps, a group with and without name, env block, extras"},
 		},
 		Outside: []string{
 			"the entire YAML leg (yaml.v3 interprets the struct tags, emits and re-scans), whether an emitted scalar (yes, 0x1f, 2002-08-15, <<, multi-line text) re-parses to the same typed value, and byte-identical repeated marshalling: properties of the yaml.v3 / encoding/json emitters and parsers, which a hand-written SSA->SMT executor cannot run - not claimed",
@@ -377,6 +383,8 @@ func registry() map[string]PropSpec {
 		Harnesses: []HSpec{
 			{Pkg: "signature", Name: "c02_roundtrip", Quick: map[string]int{}, Unwind: [2]int{64, 64}, Budget: [2]int{120, 1500}, FixedMapOrder: true, Models: []string{"net/url.Parse=vpModelURLParse", "path.Join=vpModelPathJoin"},
 				What: "SignSteps on a command step drawn from an option lattice (command incl. multi-line, env nil/empty/populated with type-looking strings, plugins nil/empty/short source/canonical source with every scalar kind in configs, matrix nil/empty/simple/named+adjustments/only adjustments, pipeline env with a shadowed variable, all key kinds) plus wait and group steps -> json.Marshal -> re-parse via CommandStep.UnmarshalJSON and via the whole-pipeline path -> Verify with the pipeline env plus an unrelated variable: signature unchanged and still verifies, also inside groups"},
+			{Pkg: "signature", Name: "c02_yaml", Quick: map[string]int{}, Unwind: [2]int{64, 64}, Budget: [2]int{120, 1500}, FixedMapOrder: true, Models: []string{"net/url.Parse=vpModelURLParse", "path.Join=vpModelPathJoin"},
+				What: "the same signed worlds through the YAML leg on the node data model: yaml.Marshal of the signed pipeline -> node tree -> parse -> Verify; signature value unchanged, still verifies, also inside groups"},
 		},
 		Outside: []string{
 			"the YAML leg and real bytes: the round trip through yaml.v3's emitter/scanner and encoding/json's byte output, and real signatures - this part of C02 is not claimed",
